@@ -455,6 +455,15 @@ fn main() {
                     }
                     continue;
                 }
+                if prop == "C04" && i == 0 {
+                    if let Ok(Some(why)) = catch_unwind(AssertUnwindSafe(parseq::thread_local_counts)) {
+                        let text = format!("# property=C04\n# found-by=bounded search of the real crate (a par/seq tree as thread-local system)\n# failure: {}\nparseq-thread-local-counts\n", why.replace('\n', " "));
+                        std::fs::write(&out, text).expect("cannot write the replay file");
+                        println!("FAIL {}", why.replace('\n', " "));
+                        println!("explored={} skipped={}", explored, skipped);
+                        std::process::exit(1);
+                    }
+                }
                 if prop == "C04" && i % 8 == 7 {
                     // the async dispatcher: k dispatches run every ordinary system k times, every wait() every thread-local system once
                     let c = asyncd::generate(&mut rng);
@@ -575,6 +584,18 @@ fn main() {
             }
             if prop == "C16" && text.lines().any(|l| l.trim() == "macro-cases") {
                 match parseq::macro_cases() {
+                    Some(w) => {
+                        println!("FAIL {}", w);
+                        std::process::exit(1);
+                    }
+                    None => {
+                        println!("HOLDS");
+                        std::process::exit(0);
+                    }
+                }
+            }
+            if prop == "C04" && text.lines().any(|l| l.trim() == "parseq-thread-local-counts") {
+                match parseq::thread_local_counts() {
                     Some(w) => {
                         println!("FAIL {}", w);
                         std::process::exit(1);
